@@ -66,6 +66,15 @@ func run(c *vf.Ctx) {
 		x := chain.NewExplorer(c, m, "C06")
 		x.Run()
 		x.Report(n + "/")
+		if !c.Expired() {
+			// block combinatorics: one setup block, then every ordered tuple of <= 3 actions in ONE block (reorg round trip
+			// after every accepted block as above)
+			mc := *m
+			mc.Name, mc.Menu, mc.D, mc.K, mc.R, mc.H, mc.StopWhenSpent = "combo", chain.ComboMenu, 2, 3, 0, m.H-1, true
+			xc := chain.NewExplorer(c, &mc, "C06")
+			xc.Run()
+			xc.Report(n + "/combo/")
+		}
 		if !c.Quick() && !c.Expired() {
 			m2 := *m
 			m2.Name, m2.Menu, m2.D, m2.K, m2.H = "union-pairs", menuK2, 2, 2, m.H-1
